@@ -97,6 +97,19 @@ def run(ctx):
                 if ser != ser_fresh:
                     viol.append({"history_hex": [h.hex() for h in hist], "input_hex": t.hex(), "input": t.decode("latin-1"),
                                  "what": "serialisation after this history differs from a fresh parser's"})
+                # what is BUILT from the parse is independent of the history too: the filter set loaded from this Parser object
+                # is the one loaded from a fresh Parser given the same script
+                def loaded(px):
+                    try:
+                        fx = FiltersSet("h")
+                        fx.from_parser_result(px)
+                        return str(fx)
+                    except Exception as e:  # noqa
+                        return "from_parser_result raised %s" % type(e).__name__
+                if fresh_ok and i >= 1 and loaded(p) != loaded(fresh):
+                    viol.append({"history_hex": [h.hex() for h in hist], "history": [h.decode("latin-1") for h in hist], "input_hex": t.hex(), "input": t.decode("latin-1"),
+                                 "what": "the filter set loaded from the reused Parser (%s) differs from the one loaded from a fresh Parser (%s)" % (
+                                     loaded(p)[:80], loaded(fresh)[:80])})
             if a != model[t]:
                 d = {"suite": "hist", "history_hex": [h.hex() for h in hist], "input_hex": t.hex(), "input": t.decode("latin-1"), "impl": a[:300], "model": model[t][:300]}
                 diffs.append(d)
